@@ -30,21 +30,15 @@ Proof. exact parse_meaning. Qed.
 Theorem C13_parse_reserves : forall s p, parse_tps s = Accept p -> standard_reserves p.
 Proof. exact parse_reserves. Qed.
 (* text that is not well-formed TPS is refused (Reject = IllegalTPS): wrong field count, player not exactly 1/2,
-   move number empty / not ASCII digits / < 1, empty cell or rank, x followed by anything but nothing or one digit
-   1-8, a mark on nothing or not last, a foreign character, ragged ranks, size outside 3..8.  The guard excludes
-   only move numbers of more than 4300 digits, on which CPython's int() raises before the board is examined. *)
-Theorem C13_parse_refuses : forall s, must_refuse s -> ~ over_int_limit s -> parse_tps s = Reject.
+   move number empty / not ASCII digits / < 1 / longer than the 4300 digits int() converts, empty cell or rank,
+   x followed by anything but nothing or one digit 1-8, a mark on nothing or not last, a foreign character,
+   ragged ranks, size outside 3..8 *)
+Theorem C13_parse_refuses : forall s, must_refuse s -> parse_tps s = Reject.
 Proof. exact parse_refuses. Qed.
-(* the classes decided before int() is reached need no guard *)
-Theorem C13_parse_refuses_early : forall s,
-  (length (fields s) <> 3%nat \/ (who_field s <> [ch_1] /\ who_field s <> [ch_2]) \/
-   move_field s = [] \/ (exists c, In c (move_field s) /\ ~ is_digit_char c)) ->
-  parse_tps s = Reject.
-Proof. exact parse_refuses_early. Qed.
-(* "no other error escapes": the model has no crash outcome; its only non-IllegalTPS failure is the int() limit
-   (in particular Position.from_squares never raises "Wrong board size" inside parse_tps) *)
-Theorem C13_parse_unspecified_iff : forall s, parse_tps s = Unspecified <-> over_int_limit s.
-Proof. exact parse_unspecified_iff. Qed.
+(* "no other error escapes": the model of the code has no outcome besides Accept and IllegalTPS (in particular
+   Position.from_squares never raises "Wrong board size" inside parse_tps, and int() is guarded) *)
+Theorem C13_never_unspecified : forall s, parse_tps s <> Unspecified.
+Proof. exact never_unspecified. Qed.
 (* the string primitives the spec is written with are characterised: split is the inverse of join on pieces
    that do not contain the separator *)
 Theorem C13_split_characterised : forall sep,
